@@ -28,6 +28,11 @@ func init() {
 	intrinsics["verifParseIP"] = func(m *Machine, th *Thread, fn *ssa.Function, a []Value, site ssa.Instruction) Value {
 		return m.constBytes([]byte(net.ParseIP(m.strArg(a[0]))))
 	}
+	// net.ParseIP of a concrete string: native (the real code goes through net/netip and the
+	// runtime's unique-handle machinery)
+	concreteIntrinsics["net.ParseIP"] = func(m *Machine, th *Thread, fn *ssa.Function, a []Value, site ssa.Instruction) Value {
+		return m.constBytes([]byte(net.ParseIP(m.strArg(a[0]))))
+	}
 	// verifParseCIDR(s string) (ip, mask []byte, ok bool): the masked network address and mask as net.ParseCIDR yields them
 	intrinsics["verifParseCIDR"] = func(m *Machine, th *Thread, fn *ssa.Function, a []Value, site ssa.Instruction) Value {
 		_, n, err := net.ParseCIDR(m.strArg(a[0]))
